@@ -26,10 +26,14 @@ func seed(f *testing.F) {
 	}
 }
 
-func FuzzC18_History(f *testing.F) { seed(f); f.Fuzz(rapid.MakeFuzz(propHistory)) }
-func FuzzC18_Proof(f *testing.F)   { seed(f); f.Fuzz(rapid.MakeFuzz(propProof)) }
-func FuzzC18_Range(f *testing.F)   { seed(f); f.Fuzz(rapid.MakeFuzz(propRange)) }
+// The Go fuzz worker kills itself ("deadlocked!", exit status 2) when one input runs longer
+// than 10 s, and the driver reports any worker death as a crasher. fuzzMode therefore caps the
+// generated sizes so that one input costs a few milliseconds even on a heavily loaded machine.
+func FuzzC18_History(f *testing.F) { fuzzMode = true; seed(f); f.Fuzz(rapid.MakeFuzz(propHistory)) }
+func FuzzC18_Proof(f *testing.F)   { fuzzMode = true; seed(f); f.Fuzz(rapid.MakeFuzz(propProof)) }
+func FuzzC18_Range(f *testing.F)   { fuzzMode = true; seed(f); f.Fuzz(rapid.MakeFuzz(propRange)) }
 func FuzzC18_Stack(f *testing.F) {
+	fuzzMode = true
 	seed(f)
 	f.Fuzz(rapid.MakeFuzz(func(t *rapid.T) {
 		if rapid.Bool().Draw(t, "which") {
